@@ -16,6 +16,7 @@ the three theorems at the end are the entry points over it.
 import PcProofs.CloseWorldStep
 import PcProofs.CloseIterPrime
 import PcProofs.CloseTablesGen
+import PcProofs.CloseStore3
 
 namespace Pc.Close
 open Nat Pc.Hard Pc.PhiVec Pc.Top Pc.PsCore Pc.LB PcGen.ApiConst Pc.PhiAlgProofs Pc.ClosePhi
@@ -72,11 +73,11 @@ structure World where
   /-- size of the shared prime / π table of the model (`T.t`; the real functions allocate exactly what they need) -/
   N : ℕ
   /-- phi.cpp: thread counts of the PiTable constructor, the `pix_upper` double formula, `pi_noprint` (never consulted at the two call
-      sites), the vector `generate_n_primes(a)` — per call `(x, a)` -/
+      sites), the stop hint `(uint64_t)(n * (log n + log log n))` of `generate_n_primes(a)` (a float; any value) — per call `(x, a)` -/
   pthreads : ℕ → ℕ → ℤ
   f : ℕ → ℕ
   piFn : ℕ → ℕ → ℕ → ℕ
-  prime : ℕ → ℕ → ℕ → ℕ
+  nthHint : ℕ → ℕ → ℕ
   /-- phi.cpp: reduction order and cache objects per call -/
   order : ℕ → ℕ → List ℕ
   sched : ℕ → ℕ → ℕ → PhiCacheL1 × ℕ
@@ -90,6 +91,9 @@ def it (W : World) : P2L.Iter := It.realIter W.env W.hp W.hn
 /-- the tables of one run (`wide` = entry type of FactorTable / FactorTableD: the 64-bit resp. 128-bit instantiation) -/
 def tables (W : World) (wide : Bool) : Tables RefSieve :=
   realTables (refSieve (realNT W.gen W.tthreads W.N).p) W.gen W.tthreads W.phiNeg wide W.N W.it
+/-- phi.cpp:378 `generate_n_primes<int32_t>(a)` = StorePrimes.hpp `store_n_primes` over the iterator model over the same sieving core
+    (`It.pcGenerateNPrimes`; proved: `It.genNPrimesFn_spec`) -/
+def prime (W : World) (x a : ℕ) : ℕ → ℕ := It.genNPrimesFn W.env (2 ^ 31 - 1) a (W.nthHint x a)
 /-- phi.cpp's tables per call -/
 def P (W : World) : ℕ → ℕ → PhiTop :=
   fun x a => realTop W.gen (W.pthreads x a) W.f (W.piFn x a) (W.prime x a) (Nat.sqrt x)
@@ -123,14 +127,15 @@ theorem tables_ok (W : World) {B : ℕ} (h : W.OK B) (wide : Bool) :
     (P2L.patch_spec (W.it_specTo h))
 
 /-- what one level `pi(n)` of the dispatcher needs about its `phi` call (only for `30719 < n ≤ 10^8`):
-    `lit` LITERATURE / crude bound on the double formula of `pix_upper`; `prime0`, `primes` the vector `generate_n_primes(a)` (model
-    `It.pcGenerateNPrimes`, no theorem); `order` OpenMP reduction; `cache` contents of the PhiCache objects (`init_cache` not modelled) -/
+    `lit` LITERATURE / crude bound on the double formula of `pix_upper`; `order` OpenMP reduction; `cache` contents of the PhiCache objects
+    (`init_cache` not modelled).  The prime vector `generate_n_primes(a)` is NOT a hypothesis: `It.genNPrimesFn_spec`. -/
 structure PhiRunOK (W : World) (n : ℕ) : Prop where
   lit : ∀ a, a ≤ π (Nat.sqrt n) → π n ≤ W.f n ∨ a < W.f n
-  prime0 : ∀ a, W.prime n a 0 = 0
-  primes : ∀ a i, 1 ≤ i → i ≤ a → W.prime n a i = Spec.p i
   order : ∀ a, (W.order n a).Perm (List.range' 9 (a - 8))
   cache : ∀ a i, 9 ≤ i → i ≤ a → CacheOK (W.sched n a i)
+
+theorem env_spec (W : World) {B : ℕ} (h : W.OK B) : It.GenSpec W.env :=
+  It.coreEnvTo_genSpec _ _ _ _ _ h.bnd_le h.float h.kib_lo h.kib_hi
 
 theorem phiExec (W : World) {B : ℕ} (h : W.OK B) (n : ℕ) (hn : maxCached < n → n ≤ meisselMax → W.PhiRunOK n) :
     PhiExec W.P W.order W.sched n := by
@@ -139,8 +144,15 @@ theorem phiExec (W : World) {B : ℕ} (h : W.OK B) (n : ℕ) (hn : maxCached < n
   have l0 : maxCached = 30719 := rfl
   by_cases hr : maxCached < n ∧ n ≤ meisselMax
   · have hh := hn hr.1 hr.2
-    exact phiExec_realTop W.gen (W.gen_spec h) W.pthreads W.f W.piFn W.prime W.order W.sched n hh.lit hh.prime0 hh.primes
-      hh.order hh.cache
+    have hs : Nat.sqrt n ≤ 30719 := sqrt_le_maxCached (by omega)
+    have key : ∀ a, a ≤ π (Nat.sqrt n) →
+        CallRunOK (W.P n a) (W.order n a) (W.sched n a) n a := by
+      intro a ha
+      obtain ⟨_, g0, g1⟩ := It.genNPrimesFn_spec W.env (W.env_spec h) (2 ^ 31 - 1) a (W.nthHint n a) (Nat.sqrt n) ha
+        (by unfold It.umax; omega) (by omega)
+      exact { top := callOK_realTop W.gen (W.gen_spec h) _ W.f _ _ n a ha (fun _ => hh.lit a ha) (fun h' => by omega) g0 g1
+              order := hh.order a, cache := hh.cache a }
+    exact { legendre := fun _ _ => key _ le_rfl, meissel := fun _ _ => key _ (pi_iroot3_le_pi_sqrt n) }
   · exact ⟨fun h1 h2 => absurd ⟨h1, by omega⟩ hr, fun h1 h2 => absurd ⟨by omega, h2⟩ hr⟩
 
 /-- the nested `pi_noprint(n)` calls are computed by the dispatcher over the same world -/
